@@ -23,7 +23,7 @@ from hypothesis import strategies as st
 
 from pbt import scenes
 from pbt.engine import Skip, Sub
-from pbt.oracles.longsims import collect
+from pbt.oracles.longsims import collect, scaled
 
 ID = "C12"
 RULE = (
@@ -304,7 +304,7 @@ def body(ctx, case):
 def cases(ctx):
     """A Hypothesis-drawn sample (seeded by the run seed and the lane), enumerated so that the engine shards it:
     quick = 8 scenes per lane (two per worker process), thorough = 64 (f32, 4 workers) / 60 (f64, 12 workers)."""
-    n = 8 if ctx.tier == "quick" else (64 if ctx.lane == "f32" else 60)
+    n = scaled(8 if ctx.tier == "quick" else (64 if ctx.lane == "f32" else 60), ctx)
     return collect(case_strategy(ctx), n, ctx.seed, salt=f"C12/{ctx.lane}/{ctx.tier}")
 
 
